@@ -17,6 +17,7 @@ import (
 	"strconv"
 	"strings"
 	"sync"
+	"sync/atomic"
 	"time"
 
 	vs "github.com/peterstace/simplefeatures/verifsim"
@@ -37,6 +38,7 @@ type Options struct {
 	NoShrink      bool
 	chunk         int64
 	freshPerChunk bool
+	chunkHistory  [][]int64
 }
 
 // DeathClassifier lets an engine turn a dead worker into a violation.
@@ -330,6 +332,9 @@ func Supervise(e Engine, opt *Options) int {
 	}
 	fmt.Printf("verif %s tier=%s VERIF_SEED=%d runs=%d workers=%d chunk=%d\n", e.ID(), opt.Tier, opt.Seed, total, W, chunk)
 	results := make([]*merged, nChunks)
+	var nextChunk int64
+	chunkHistory := make([][]int64, nChunks) // for each chunk: the chunks the same worker process ran before it
+	opt.chunkHistory = chunkHistory
 	var wg sync.WaitGroup
 	var trouble error
 	var tmu sync.Mutex
@@ -355,7 +360,17 @@ func Supervise(e Engine, opt *Options) int {
 			if f, ok := e.(FreshPerChunk); ok {
 				fpc = f.FreshWorkerPerChunk()
 			}
-			for c := w; c < nChunks; c += W {
+			var mine []int64 // chunks this worker goroutine has executed, in order
+			for {
+				// chunks are handed out on demand (a static deal left a few
+				// workers grinding through the heavy chunks at the end); results
+				// are merged by chunk index, so the batch outcome is the same
+				c := atomic.AddInt64(&nextChunk, 1) - 1
+				if c >= nChunks {
+					break
+				}
+				chunkHistory[c] = append([]int64(nil), mine...)
+				mine = append(mine, c)
 				if fpc && p != nil {
 					p.stop()
 					p = nil
@@ -700,10 +715,11 @@ func historyOf(opt *Options, idx int64) [][2]int64 {
 	if opt.freshPerChunk {
 		return [][2]int64{{c * opt.chunk, idx + 1}}
 	}
-	W := int64(opt.Workers)
 	var out [][2]int64
-	for k := c % W; k < c; k += W {
-		out = append(out, [2]int64{k * opt.chunk, (k + 1) * opt.chunk})
+	if int(c) < len(opt.chunkHistory) {
+		for _, k := range opt.chunkHistory[c] {
+			out = append(out, [2]int64{k * opt.chunk, (k + 1) * opt.chunk})
+		}
 	}
 	return append(out, [2]int64{c * opt.chunk, idx + 1})
 }
